@@ -53,6 +53,26 @@ Proof.
   intros pre v l lg i post H. apply walk_app in H. destruct H as [_ H]. cbn [walk] in H. tauto.
 Qed.
 
+(* names of connections that have gone away *)
+Definition dead_new (v : conn -> cstatus) (i : item) : list bytes :=
+  match i with
+  | TGone c => match v c with CNamed n => [n] | _ => [] end
+  | _ => []
+  end.
+
+Fixpoint dead_from (v : conn -> cstatus) (tr : list item) : list bytes :=
+  match tr with
+  | [] => []
+  | i :: r => dead_new v i ++ dead_from (view_step v i) r
+  end.
+
+Definition departed (tr : list item) : list bytes := dead_from (fun _ => CAbsent) tr.
+
+Lemma dead_from_app : forall a b v, dead_from v (a ++ b) = dead_from v a ++ dead_from (fold_left view_step a v) b.
+Proof.
+  induction a as [|i a IH]; intros b v; [reflexivity|]. cbn [app fold_left dead_from]. rewrite IH, app_assoc. reflexivity.
+Qed.
+
 Lemma issued_app a b : issued (a ++ b) = issued a ++ issued b.
 Proof. unfold issued. apply flat_map_app. Qed.
 
@@ -61,7 +81,7 @@ Lemma emit_ok_log strict v l lg lg' o s m :
   (forall x, In x lg -> In x lg') -> emit_ok strict v l lg o s m -> emit_ok strict v l lg' o s m.
 Proof.
   intros H. unfold emit_ok. destruct o; auto. destruct s; auto.
-  intros [A B]. split; [exact A|]. destruct (v c); auto. destruct B as [B1 (m0 & B2 & B3)]. split; [exact B1|].
+  intros [A [A' B]]. split; [exact A|]. split; [exact A'|]. destruct (v c); auto. destruct B as [B1 (m0 & B2 & B3)]. split; [exact B1|].
   exists m0. split; [apply H; exact B2 | exact B3].
 Qed.
 
@@ -104,10 +124,10 @@ Lemma emit_driver strict v last lg s m' :
 Proof. intros W S. cbn. split; [apply wf_defined; exact W | exact S]. Qed.
 
 Lemma emit_client_named strict v lg c m n s m' :
-  plain s -> v c = CNamed n -> wf_fields (s_fields m') -> sender_is m' n -> same_content m m' ->
+  plain s -> addr_ok v s m' -> v c = CNamed n -> wf_fields (s_fields m') -> sender_is m' n -> same_content m m' ->
   emit_ok strict v (Some (c, m)) lg (OClient c) s m'.
 Proof.
-  intros P V W S C. cbn. split; [apply wf_defined; exact W|].
+  intros P Ad V W S C. cbn [emit_ok]. split; [apply wf_defined; exact W|]. split; [exact Ad|].
   destruct s; try contradiction; (split; [exists m; split; [reflexivity|exact C]|]); rewrite V; exact S.
 Qed.
 
@@ -115,7 +135,7 @@ Lemma emit_client_unnamed v lg c m m' :
   v c = CUnnamed -> wf_fields (s_fields m') -> sender_is m' not_active -> same_content m m' ->
   emit_ok false v (Some (c, m)) lg (OClient c) SMonitors m'.
 Proof.
-  intros V W S C. cbn. split; [apply wf_defined; exact W|]. split; [exists m; split; [reflexivity|exact C]|].
+  intros V W S C. cbn. split; [apply wf_defined; exact W|]. split; [exact Logic.I|]. split; [exists m; split; [reflexivity|exact C]|].
   rewrite V. split; [reflexivity | exact S].
 Qed.
 
@@ -124,7 +144,7 @@ Lemma emit_released strict v last lg c n m0 m' :
   v c = CNamed n -> wf_fields (s_fields m') -> sender_is m' n -> In (c, n, m0) lg -> same_content m0 m' ->
   emit_ok strict v last lg (OClient c) (SReleased c) m'.
 Proof.
-  intros V W S L C. cbn. split; [apply wf_defined; exact W|]. rewrite V. split; [exact S|]. exists m0. auto.
+  intros V W S L C. cbn. split; [apply wf_defined; exact W|]. split; [exact Logic.I|]. rewrite V. split; [exact S|]. exists m0. auto.
 Qed.
 
 (* ---------------- the environment ------------------------------------------------------------- *)
@@ -229,10 +249,10 @@ Definition emits_ok (v : conn -> cstatus) (last : option (conn * smsg)) (lg : li
 
 Lemma emits_walk v last lg tr :
   emits_ok v last lg tr ->
-  walk false v last lg tr /\ (forall k, fold_left view_step tr v k = v k) /\ issued tr = [] /\ wrote_from v tr = [].
+  walk false v last lg tr /\ (forall k, fold_left view_step tr v k = v k) /\ issued tr = [] /\ wrote_from v tr = [] /\ dead_from v tr = [].
 Proof.
-  induction 1 as [|i r Hi Hr IH]; cbn [walk fold_left issued flat_map]; [auto|].
-  destruct i; try contradiction. cbn [view_step last_step app log_new]. rewrite wrote_from_cons. cbn [log_new view_step app].
+  induction 1 as [|i r Hi Hr IH]; cbn [walk fold_left issued flat_map dead_from]; [auto|].
+  destruct i; try contradiction. cbn [view_step last_step app log_new dead_new]. rewrite wrote_from_cons. cbn [log_new view_step app].
   rewrite app_nil_r. tauto.
 Qed.
 
@@ -266,16 +286,22 @@ Definition held_ok (lg : list (conn * bytes * smsg)) (h : held) : Prop :=
   wf_fields (s_fields (h_msg h)) /\ sender_is (h_msg h) (h_sender h) /\
   exists m0, In (h_conn h, h_sender h, m0) lg /\ same_content m0 (h_msg h).
 
-Record Inv (b : bus) (v : conn -> cstatus) (iss : list bytes) (lg : list (conn * bytes * smsg)) : Prop := mkInv {
+Record Inv (b : bus) (v : conn -> cstatus) (iss : list bytes) (lg : list (conn * bytes * smsg)) (dead : list bytes) : Prop := mkInv {
   inv_view : forall c, v c = cst (lookup c (b_conns b));            (* who is who = BusConnectionData.name *)
   inv_ctr : counters_ok (b_major b) (b_minor b);
   inv_max : (b_minor b <= INT_MAX)%Z;
   inv_iss : iss = map name_k (seq 0 (Z.to_nat (b_minor b)));        (* names issued so far: :1.0 ... :1.(minor-1) *)
-  inv_reg : forall n, In n (b_reg b) -> In n iss;                   (* registered ':'-names were all issued *)
-  inv_held : Forall (held_ok lg) (b_held b)
+  inv_reg : forall n, In n (reg_names b) -> In n iss;               (* registered ':'-names were all issued *)
+  inv_held : Forall (held_ok lg) (b_held b);
+  (* the registry's ':' entries: exactly one per named connection, whose only owner is that connection *)
+  inv_regq : forall n q, In (n, q) (b_reg b) -> exists c, q = [c] /\ lookup c (b_conns b) = Some (Some n);
+  inv_regc : forall c n, lookup c (b_conns b) = Some (Some n) -> In (n, [c]) (b_reg b);
+  inv_distinct : forall c c' n, lookup c (b_conns b) = Some (Some n) -> lookup c' (b_conns b) = Some (Some n) -> c = c';
+  (* the name of a connection that has gone away is nobody's *)
+  inv_dead : forall n, In n dead -> In n iss /\ forall c, lookup c (b_conns b) <> Some (Some n)
 }.
 
-Lemma Inv_init : Inv bus0 (fun _ => CAbsent) [] [].
+Lemma Inv_init : Inv bus0 (fun _ => CAbsent) [] [] [].
 Proof.
   constructor.
   - intros c. reflexivity.
@@ -284,46 +310,66 @@ Proof.
   - reflexivity.
   - intros n [].
   - constructor.
+  - intros n q [].
+  - intros c n H. discriminate.
+  - intros c c' n H. discriminate.
+  - intros n [].
 Qed.
 
 Lemma held_ok_log lg lg' h : (forall x, In x lg -> In x lg') -> held_ok lg h -> held_ok lg' h.
 Proof. intros H (A & B & m0 & C & D). unfold held_ok. split; [exact A|]. split; [exact B|]. exists m0. auto. Qed.
 
-Lemma Inv_same b v iss lg v' iss' lg' :
-  Inv b v iss lg -> (forall k, v' k = v k) -> iss' = iss -> (forall x, In x lg -> In x lg') -> Inv b v' iss' lg'.
+Lemma Inv_same b v iss lg dead v' iss' lg' :
+  Inv b v iss lg dead -> (forall k, v' k = v k) -> iss' = iss -> (forall x, In x lg -> In x lg') -> Inv b v' iss' lg' dead.
 Proof.
-  intros [A B C D E F] Hv -> Hl. constructor; auto.
+  intros [A B C D E F G1 G2 G3 G4] Hv -> Hl. constructor; auto.
   - intros c. rewrite Hv. apply A.
   - eapply Forall_impl; [|exact F]. intros h. apply held_ok_log. exact Hl.
 Qed.
 
-Lemma minor_nonneg b v iss lg : Inv b v iss lg -> (0 <= b_minor b)%Z.
-Proof. intros I. destruct (inv_ctr _ _ _ _ I) as [[_ ->]|[_ H]]; lia. Qed.
+Lemma minor_nonneg b v iss lg dead : Inv b v iss lg dead -> (0 <= b_minor b)%Z.
+Proof. intros I. destruct (inv_ctr _ _ _ _ _ I) as [[_ ->]|[_ H]]; lia. Qed.
 
-Lemma reg_minted b v iss lg n :
-  Inv b v iss lg -> In n (b_reg b) -> exists k, (0 <= k < b_minor b)%Z /\ n = unique_name 1 k.
+Lemma iss_minted b v iss lg dead n :
+  Inv b v iss lg dead -> In n iss -> exists k, (0 <= k < b_minor b)%Z /\ n = unique_name 1 k.
 Proof.
-  intros I H. apply (inv_reg _ _ _ _ I) in H. rewrite (inv_iss _ _ _ _ I) in H. apply in_map_iff in H.
+  intros I H. rewrite (inv_iss _ _ _ _ _ I) in H. apply in_map_iff in H.
   destruct H as (k & <- & Hk). apply in_seq in Hk. exists (Z.of_nat k). split; [|reflexivity].
-  pose proof (minor_nonneg _ _ _ _ I). lia.
+  pose proof (minor_nonneg _ _ _ _ _ I). lia.
+Qed.
+
+Lemma reg_minted b v iss lg dead n :
+  Inv b v iss lg dead -> In n (reg_names b) -> exists k, (0 <= k < b_minor b)%Z /\ n = unique_name 1 k.
+Proof. intros I H. eapply iss_minted; eauto. apply (inv_reg _ _ _ _ _ I). exact H. Qed.
+
+Lemma live_issued b v iss lg dead c n :
+  Inv b v iss lg dead -> lookup c (b_conns b) = Some (Some n) -> In n iss.
+Proof.
+  intros I H. apply (inv_reg _ _ _ _ _ I). apply (inv_regc _ _ _ _ _ I) in H. unfold reg_names. apply in_map_iff. exists (n, [c]). auto.
 Qed.
 
 Lemma cst_unnamed o : cst o = CUnnamed -> o = Some None.
 Proof. destruct o as [[?|]|]; cbn; congruence. Qed.
 
 (* state changes that only touch the connection table *)
-Lemma Inv_remove b v iss lg c :
-  Inv b v iss lg -> Inv (set_conns b (remove_conn c (b_conns b))) (upd v c CAbsent) iss lg.
+Lemma Inv_remove b v iss lg dead c :
+  Inv b v iss lg dead -> (forall n, lookup c (b_conns b) <> Some (Some n)) ->
+  Inv (set_conns b (remove_conn c (b_conns b))) (upd v c CAbsent) iss lg dead.
 Proof.
-  intros [A B C D E F]. constructor; cbn [set_conns b_major b_minor b_conns b_reg b_held]; auto.
-  intros k. unfold upd. rewrite lookup_remove. destruct (k =? c); [reflexivity | apply A].
+  intros [A B C D E F G1 G2 G3 G4] U. constructor; cbn [set_conns b_major b_minor b_conns b_reg b_held reg_names]; auto.
+  - intros k. unfold upd. rewrite lookup_remove. destruct (k =? c); [reflexivity | apply A].
+  - intros n q H. destruct (G1 n q H) as (c0 & -> & L). exists c0. split; [reflexivity|]. rewrite lookup_remove.
+    destruct (N.eqb_spec c0 c) as [->|_]; [exfalso; exact (U n L) | exact L].
+  - intros k n H. rewrite lookup_remove in H. destruct (k =? c); [discriminate|]. apply G2. exact H.
+  - intros k k' n H H'. rewrite lookup_remove in H, H'. destruct (k =? c); [discriminate|]. destruct (k' =? c); [discriminate|]. eapply G3; eauto.
+  - intros n H. destruct (G4 n H) as [X Y]. split; [exact X|]. intros k. rewrite lookup_remove. destruct (k =? c); [discriminate | apply Y].
 Qed.
 
 (* a kept message whose writer is still there *)
-Lemma still_there_named b v iss lg h :
-  Inv b v iss lg -> still_there b h = true -> v (h_conn h) = CNamed (h_sender h).
+Lemma still_there_named b v iss lg dead h :
+  Inv b v iss lg dead -> still_there b h = true -> v (h_conn h) = CNamed (h_sender h).
 Proof.
-  intros I S. unfold still_there, name_of in S. rewrite (inv_view _ _ _ _ I).
+  intros I S. unfold still_there, name_of in S. rewrite (inv_view _ _ _ _ _ I).
   destruct (lookup (h_conn h) (b_conns b)) as [[n|]|]; try discriminate. apply bytes_eqb_eq in S. subst n. reflexivity.
 Qed.
 
@@ -346,35 +392,36 @@ Section Steps.
 
   (* what a step must establish *)
   Definition post (b : bus) (v : conn -> cstatus) (iss : list bytes) (last : option (conn * smsg))
-             (lg : list (conn * bytes * smsg)) (sends : Z) (o : outcome) : Prop :=
+             (lg : list (conn * bytes * smsg)) (dead : list bytes) (sends : Z) (o : outcome) : Prop :=
     match o with
     | Ok b' tr =>
-        walk false v last lg tr /\ Inv b' (fold_left view_step tr v) (iss ++ issued tr) (lg ++ wrote_from v tr) /\
+        walk false v last lg tr /\
+        Inv b' (fold_left view_step tr v) (iss ++ issued tr) (lg ++ wrote_from v tr) (dead ++ dead_from v tr) /\
         (b_minor b <= b_minor b' <= b_minor b + sends)%Z
     | Fault _ => (b_minor b = INT_MAX /\ sends = 1)%Z
     | Ill => True
     end.
 
   (* emissions only, and a new state that differs at most in what is kept / owned *)
-  Lemma post_emits b b' v iss last lg tr :
-    Inv b v iss lg -> emits_ok v last lg tr ->
+  Lemma post_emits b b' v iss last lg dead tr :
+    Inv b v iss lg dead -> emits_ok v last lg tr ->
     b_major b' = b_major b -> b_minor b' = b_minor b -> b_conns b' = b_conns b -> b_reg b' = b_reg b ->
     Forall (held_ok lg) (b_held b') ->
-    post b v iss last lg 1 (Ok b' tr).
+    post b v iss last lg dead 1 (Ok b' tr).
   Proof.
-    intros I E E1 E2 E3 E4 H. destruct (emits_walk _ _ _ _ E) as (A & B & C & D). cbn [post].
-    split; [exact A|]. rewrite C, D, !app_nil_r. split; [|lia].
-    destruct I as [I1 I2 I3 I4 I5 I6]. constructor; rewrite ?E1, ?E2, ?E3, ?E4; auto.
+    intros I E E1 E2 E3 E4 H. destruct (emits_walk _ _ _ _ E) as (A & B & C & D & D'). cbn [post].
+    split; [exact A|]. rewrite C, D, D', !app_nil_r. split; [|lia].
+    destruct I as [I1 I2 I3 I4 I5 I6 I7 I8 I9 I10]. constructor; unfold reg_names; rewrite ?E1, ?E2, ?E3, ?E4; auto.
     intros c. rewrite B. apply I1.
   Qed.
 
-  Lemma post_same b v iss last lg tr : Inv b v iss lg -> emits_ok v last lg tr -> post b v iss last lg 1 (Ok b tr).
-  Proof. intros I E. apply post_emits; auto. apply (inv_held _ _ _ _ I). Qed.
+  Lemma post_same b v iss last lg dead tr : Inv b v iss lg dead -> emits_ok v last lg tr -> post b v iss last lg dead 1 (Ok b tr).
+  Proof. intros I E. apply post_emits; auto. apply (inv_held _ _ _ _ _ I). Qed.
 
   (* bus_driver_handle_hello *)
-  Lemma do_hello_ok b c m0 v iss lg :
-    Inv b v iss lg -> v c = CUnnamed -> wire_ok m0 ->
-    post b v iss (Some (c, m0)) lg 1 (do_hello max_completed b c (stamp not_active m0)).
+  Lemma do_hello_ok b c m0 v iss lg dead :
+    Inv b v iss lg dead -> v c = CUnnamed -> wire_ok m0 ->
+    post b v iss (Some (c, m0)) lg dead 1 (do_hello max_completed b c (stamp not_active m0)).
   Proof.
     intros I V W. unfold do_hello.
     pose proof (stamp_wf not_active m0 W) as Wf.
@@ -382,22 +429,22 @@ Section Steps.
     { apply emit_client_unnamed; auto using stamp_sender, stamp_same_content. }
     destruct (max_completed <=? n_completed b).
     - apply post_same; auto. constructor; [exact Cap|]. constructor; [apply error_reply_ok | constructor].
-    - pose proof (minor_nonneg _ _ _ _ I) as Nn. pose proof (inv_max _ _ _ _ I) as Mx.
+    - pose proof (minor_nonneg _ _ _ _ _ I) as Nn. pose proof (inv_max _ _ _ _ _ I) as Mx.
       destruct (Z.eq_dec (b_minor b) INT_MAX) as [E|E].
-      + destruct (inv_ctr _ _ _ _ I) as [[_ Z0]|[M1 _]]; [unfold INT_MAX in E; lia|].
+      + destruct (inv_ctr _ _ _ _ _ I) as [[_ Z0]|[M1 _]]; [unfold INT_MAX in E; lia|].
         rewrite M1. rewrite E at 1. cbn [mint]. cbn. split; [exact E | reflexivity].
-      + rewrite (mint_fresh (length (b_reg b)) (b_reg b) (b_major b) (b_minor b));
-          [| exact (inv_ctr _ _ _ _ I) | lia | intros n Hn; eapply reg_minted; eauto].
+      + rewrite (mint_fresh (length (reg_names b)) (reg_names b) (b_major b) (b_minor b));
+          [| exact (inv_ctr _ _ _ _ _ I) | lia | intros n Hn; eapply reg_minted; eauto].
         set (name := unique_name 1 (b_minor b)).
-        set (b' := mkBus 1 (b_minor b + 1) (set_name c name (b_conns b)) (name :: b_reg b) (b_owned b) (b_held b)).
+        set (b' := mkBus 1 (b_minor b + 1) (set_name c name (b_conns b)) ((name, [c]) :: b_reg b) (b_owned b) (b_held b)).
         set (m' := set_sender (stamp not_active m0) name).
         assert (Wm' : wf_fields (s_fields m')) by (apply set_sender_wf; exact Wf).
         assert (V1 : upd v c (CNamed name) c = CNamed name) by (unfold upd; rewrite N.eqb_refl; reflexivity).
-        assert (Em' : forall s lg', plain s -> emit_ok false (upd v c (CNamed name)) (Some (c, m0)) lg' (OClient c) s m').
-        { intros s lg' P. apply (emit_client_named false _ lg' c m0 name s m' P V1 Wm').
+        assert (Em' : forall s lg', (match s with SMonitors | SMatches _ => True | _ => False end) -> emit_ok false (upd v c (CNamed name)) (Some (c, m0)) lg' (OClient c) s m').
+        { intros s lg' P. apply (emit_client_named false _ lg' c m0 name s m'); [destruct s; try contradiction; exact Logic.I | destruct s; try contradiction; exact Logic.I | exact V1 | exact Wm' | |].
           - apply set_sender_is. apply Wf.
           - apply same_content_restamp. apply stamp_same_content. }
-        cbn [post walk view_step last_step fold_left issued flat_map app emit_dmsg noc log_new wrote_from].
+        cbn [post walk view_step last_step fold_left issued flat_map app emit_dmsg noc log_new wrote_from dead_from dead_new].
         rewrite !app_nil_r.
         split; [|split].
         * split; [exact V|]. split; [apply Em'; exact Logic.I|].
@@ -407,34 +454,58 @@ Section Steps.
                   apply new_driver_signal_wf; repeat constructor; unfold F_DESTINATION; lia|].
           split; [apply Em'; exact Logic.I | exact Logic.I].
         * unfold b'. constructor; cbn [b_major b_minor b_conns b_reg b_held].
-          -- intros k. unfold upd. rewrite lookup_set_name. destruct (k =? c); [|apply (inv_view _ _ _ _ I)].
-             rewrite (inv_view _ _ _ _ I) in V. apply cst_unnamed in V. rewrite V. reflexivity.
+          -- intros k. unfold upd. rewrite lookup_set_name. destruct (k =? c); [|apply (inv_view _ _ _ _ _ I)].
+             rewrite (inv_view _ _ _ _ _ I) in V. apply cst_unnamed in V. rewrite V. reflexivity.
           -- right. lia.
           -- lia.
-          -- rewrite (inv_iss _ _ _ _ I). replace (Z.to_nat (b_minor b + 1)) with (S (Z.to_nat (b_minor b))) by lia.
+          -- rewrite (inv_iss _ _ _ _ _ I). replace (Z.to_nat (b_minor b + 1)) with (S (Z.to_nat (b_minor b))) by lia.
              rewrite seq_S, map_app. cbn [map plus]. unfold name_k at 3. rewrite Z2Nat.id by lia. reflexivity.
-          -- intros n [<-|Hn]; apply in_or_app; [right; left; reflexivity | left; exact (inv_reg _ _ _ _ I n Hn)].
-          -- exact (inv_held _ _ _ _ I).
+          -- cbn [reg_names map fst]. intros n [<-|Hn]; apply in_or_app; [right; left; reflexivity | left; exact (inv_reg _ _ _ _ _ I n Hn)].
+          -- exact (inv_held _ _ _ _ _ I).
+          -- pose proof V as V'. rewrite (inv_view _ _ _ _ _ I) in V'. apply cst_unnamed in V'.
+             intros n q [H|H].
+             ++ injection H; intros <- <-. exists c. split; [reflexivity|]. rewrite lookup_set_name, N.eqb_refl, V'. reflexivity.
+             ++ destruct (inv_regq _ _ _ _ _ I n q H) as (c0 & -> & L). exists c0. split; [reflexivity|]. rewrite lookup_set_name.
+                destruct (N.eqb_spec c0 c) as [->|_]; [congruence | exact L].
+          -- pose proof V as V'. rewrite (inv_view _ _ _ _ _ I) in V'. apply cst_unnamed in V'.
+             intros k n H. rewrite lookup_set_name in H. destruct (N.eqb_spec k c) as [->|_].
+             ++ rewrite V' in H. injection H; intros <-. left. reflexivity.
+             ++ right. apply (inv_regc _ _ _ _ _ I). exact H.
+          -- pose proof V as V'. rewrite (inv_view _ _ _ _ _ I) in V'. apply cst_unnamed in V'.
+             assert (Fresh : forall k, lookup k (b_conns b) <> Some (Some name)).
+             { intros k Hk. apply (live_issued _ _ _ _ _ _ _ I) in Hk. destruct (iss_minted _ _ _ _ _ _ I Hk) as (j & Hj & Ej).
+               unfold name in Ej. apply unique_name_inj in Ej; lia. }
+             intros k k' n H H'. rewrite lookup_set_name in H, H'.
+             destruct (N.eqb_spec k c) as [->|Nk]; destruct (N.eqb_spec k' c) as [->|Nk']; auto.
+             ++ rewrite V' in H. injection H; intros <-. exfalso. exact (Fresh _ H').
+             ++ rewrite V' in H'. injection H'; intros <-. exfalso. exact (Fresh _ H).
+             ++ eapply (inv_distinct _ _ _ _ _ I); eauto.
+          -- pose proof V as V'. rewrite (inv_view _ _ _ _ _ I) in V'. apply cst_unnamed in V'.
+             intros n H. destruct (inv_dead _ _ _ _ _ I n H) as [X Y]. split; [apply in_or_app; left; exact X|].
+             intros k Hk. rewrite lookup_set_name in Hk. destruct (N.eqb_spec k c) as [Ek|Nk].
+             ++ rewrite V' in Hk. injection Hk; intros En. destruct (iss_minted _ _ _ _ _ _ I X) as (j & Hj & Ej).
+                rewrite <- En in Ej. unfold name in Ej. apply unique_name_inj in Ej; lia.
+             ++ exact (Y k Hk).
         * unfold b'. cbn [b_minor]. lia.
   Qed.
 
   (* "clients must talk to bus driver first": captured under the placeholder, then closed *)
-  Lemma post_close b v iss lg c m :
-    Inv b v iss lg -> v c = CUnnamed -> wire_ok m ->
-    post b v iss (Some (c, m)) lg 1
+  Lemma post_close b v iss lg dead c m :
+    Inv b v iss lg dead -> v c = CUnnamed -> wire_ok m ->
+    post b v iss (Some (c, m)) lg dead 1
       (Ok (set_conns b (remove_conn c (b_conns b))) [TEmit (OClient c) SMonitors (stamp not_active m); TGone c]).
   Proof.
-    intros I V W. cbn [post walk view_step last_step fold_left issued flat_map app b_minor set_conns log_new wrote_from].
-    rewrite !app_nil_r. split; [|split; [|lia]].
+    intros I V W. cbn [post walk view_step last_step fold_left issued flat_map app b_minor set_conns log_new wrote_from dead_from dead_new].
+    rewrite V, !app_nil_r. split; [|split; [|lia]].
     - split; [|auto]. apply emit_client_unnamed; auto using stamp_wf, stamp_sender, stamp_same_content.
-    - apply Inv_remove. exact I.
+    - apply Inv_remove; [exact I|]. intros n H. rewrite (inv_view _ _ _ _ _ I), H in V. discriminate.
   Qed.
 
   (* bus_activation_send_pending_auto_activation_messages / try_send_activation_failure *)
-  Lemma release_ok b v iss lg last name :
-    Inv b v iss lg -> emits_ok v last lg (release driver b name).
+  Lemma release_ok b v iss lg dead last name :
+    Inv b v iss lg dead -> emits_ok v last lg (release driver b name).
   Proof.
-    intros I. unfold release, emits_ok. pose proof (inv_held _ _ _ _ I) as H.
+    intros I. unfold release, emits_ok. pose proof (inv_held _ _ _ _ _ I) as H.
     induction H as [|h r Hh Hr IH]; cbn [flat_map]; [constructor|]. apply Forall_app. split; [|exact IH].
     destruct (bytes_eqb (h_name h) name); cbn [andb]; [|constructor].
     destruct (still_there b h) eqn:S; [|constructor].
@@ -452,17 +523,37 @@ Section Steps.
     constructor; [apply error_reply_ok | constructor].
   Qed.
 
-  Lemma dispatch_ok b c cname m v iss lg :
-    Inv b v iss lg -> lookup c (b_conns b) = Some cname -> wire_ok m ->
+  Lemma str_field_set_sender m n c0 : c0 <> 7 -> str_field (set_sender m n) c0 = str_field m c0.
+  Proof. intros H. unfold str_field. rewrite set_sender_fields, get_set_other by exact H. reflexivity. Qed.
+
+  (* the addressed recipient of a message to a ':' name *)
+  Lemma addr_ok_routed b v iss lg dead c d m n :
+    Inv b v iss lg dead -> str_field (scrub m) F_DESTINATION = Some d ->
+    addr_ok v (SRouted c (if is_prefix [58] d then match resolve b d with Some r => ATo r | None => ANobody end else AUnknown)) (stamp n m).
+  Proof.
+    intros I D. assert (D' : str_field (stamp n m) F_DESTINATION = Some d).
+    { unfold stamp. rewrite str_field_set_sender by (unfold F_DESTINATION; lia). exact D. }
+    destruct (is_prefix [58] d); [|exact Logic.I]. unfold resolve.
+    destruct (find (fun e => bytes_eqb d (fst e)) (b_reg b)) as [[d' q]|] eqn:F.
+    - apply find_some in F. destruct F as [Fi Fe]. cbn [fst] in Fe. apply bytes_eqb_eq in Fe. subst d'.
+      destruct (inv_regq _ _ _ _ _ I d q Fi) as (r & -> & L). cbn [addr_ok]. exists d. split; [exact D'|].
+      rewrite (inv_view _ _ _ _ _ I), L. reflexivity.
+    - cbn [addr_ok]. exists d. split; [exact D'|]. intros r Hr. rewrite (inv_view _ _ _ _ _ I) in Hr.
+      destruct (lookup r (b_conns b)) as [[n0|]|] eqn:L; try discriminate. injection Hr; intros ->.
+      apply (inv_regc _ _ _ _ _ I) in L. pose proof (find_none _ _ F _ L) as X. cbn [fst] in X. rewrite bytes_eqb_refl in X. discriminate.
+  Qed.
+
+  Lemma dispatch_ok b c cname m v iss lg dead :
+    Inv b v iss lg dead -> lookup c (b_conns b) = Some cname -> wire_ok m ->
     (forall n, cname = Some n -> In (c, n, m) lg) ->
-    post b v iss (Some (c, m)) lg 1 (dispatch' b c cname m).
+    post b v iss (Some (c, m)) lg dead 1 (dispatch' b c cname m).
   Proof.
     intros I L W Lg. unfold dispatch.
     destruct (peer_filter machine_id c m) as [tr|] eqn:PF.
     { apply post_same; auto. eapply peer_filter_ok. exact PF. }
-    assert (Vc : v c = cst (Some cname)) by (rewrite (inv_view _ _ _ _ I), L; reflexivity).
-    assert (Named : forall n s, plain s -> cname = Some n -> emit_ok false v (Some (c, m)) lg (OClient c) s (stamp n m)).
-    { intros n s P ->. apply emit_client_named with (n := n); auto using stamp_wf, stamp_sender, stamp_same_content. }
+    assert (Vc : v c = cst (Some cname)) by (rewrite (inv_view _ _ _ _ _ I), L; reflexivity).
+    assert (Named : forall n s, plain s -> addr_ok v s (stamp n m) -> cname = Some n -> emit_ok false v (Some (c, m)) lg (OClient c) s (stamp n m)).
+    { intros n s P A ->. apply emit_client_named with (n := n); auto using stamp_wf, stamp_sender, stamp_same_content. }
     assert (Cap0 : cname = None -> emit_ok false v (Some (c, m)) lg (OClient c) SMonitors (stamp not_active m)).
     { intros ->. apply emit_client_unnamed; auto using stamp_wf, stamp_sender, stamp_same_content. }
     destruct (str_field (scrub m) F_DESTINATION) as [d|] eqn:D.
@@ -470,19 +561,22 @@ Section Steps.
       destruct (bytes_eqb d drv_name).
       + (* to the driver *)
         destruct cname as [n|].
-        * assert (Cap : forall s, plain s -> emit_ok false v (Some (c, m)) lg (OClient c) s (stamp n m)) by (intros s P; apply Named; auto).
+        * assert (Cap : forall s, (match s with SMonitors | SMatches _ => True | _ => False end) -> emit_ok false v (Some (c, m)) lg (OClient c) s (stamp n m)).
+          { intros s P. apply Named; auto; destruct s; try contradiction; exact Logic.I. }
           destruct (send_allowed b c (set_sender (scrub m) n)); cbn [negb].
           2:{ apply post_same; auto. constructor; [apply Cap; exact Logic.I | constructor; [apply error_reply_ok | constructor]]. }
           destruct (is_call (set_sender (scrub m) n) drv_name mem_hello).
           { apply post_same; auto. constructor; [apply Cap; exact Logic.I | constructor; [apply error_reply_ok | constructor]]. }
-          assert (Cap3 : forall s, plain s ->
+          assert (Cap3 : forall s, (match s with SMonitors | SMatches _ => True | _ => False end) ->
                     emit_ok false v (Some (c, m)) lg (OClient c) s
                       (if reads_args b c (set_sender (scrub m) n) then to_native (set_sender (scrub m) n) else set_sender (scrub m) n)).
           { intros s P. destruct (reads_args b c (set_sender (scrub m) n)); [|apply Cap; exact P].
-            apply emit_client_named with (n := n); auto.
+            apply emit_client_named with (n := n); auto; try (destruct s; try contradiction; exact Logic.I).
             - rewrite to_native_fields. apply stamp_wf. exact W.
             - apply sender_is_native. apply stamp_sender. exact W.
             - apply same_content_native. apply stamp_same_content. }
+          destruct (colon_request_of (set_sender (scrub m) n)).
+          { apply post_same; auto. constructor; [apply Cap3; exact Logic.I | constructor; [apply error_reply_ok | constructor]]. }
           assert (Plain : emits_ok v (Some (c, m)) lg
                     (TEmit (OClient c) SMonitors (if reads_args b c (set_sender (scrub m) n) then to_native (set_sender (scrub m) n) else set_sender (scrub m) n)
                      :: map (emit_dmsg b) (driver b c (set_sender (scrub m) n)) ++
@@ -494,29 +588,30 @@ Section Steps.
           apply post_emits; auto.
           -- constructor; [apply Cap3; exact Logic.I|]. apply Forall_app. split; [apply emits_dmsgs; apply driver_wf|].
              apply Forall_app. split; [eapply release_ok; eauto|]. constructor; [apply Cap3; exact Logic.I | constructor].
-          -- cbn [b_held]. pose proof (inv_held _ _ _ _ I) as H. clear - H. induction H as [|h r Hh Hr IH]; cbn [filter]; [constructor|].
+          -- cbn [b_held]. pose proof (inv_held _ _ _ _ _ I) as H. clear - H. induction H as [|h r Hh Hr IH]; cbn [filter]; [constructor|].
              destruct (negb (bytes_eqb (h_name h) name)); [constructor|]; auto.
         * destruct (is_call (set_sender (scrub m) not_active) drv_name mem_hello); cbn [negb].
           2:{ apply post_same; auto. constructor; [apply Cap0; reflexivity | constructor; [apply error_reply_ok | constructor]]. }
           destruct (bytes_eqb (s_sig (set_sender (scrub m) not_active)) []); cbn [negb].
           2:{ apply post_same; auto. constructor; [apply Cap0; reflexivity | constructor; [apply error_reply_ok | constructor]]. }
-          apply (do_hello_ok b c m v iss lg); auto.
+          apply (do_hello_ok b c m v iss lg dead); auto.
       + destruct cname as [n|].
         * destruct (negb (is_owned b d) && negb (N.testbit (s_flags (set_sender (scrub m) n)) 1) && activatable d).
           -- (* kept for the service being started *)
              apply post_emits; auto.
-             ++ constructor; [apply Named; [exact Logic.I | reflexivity]|]. apply emits_dmsgs. apply driver_wf.
-             ++ cbn [set_held b_held]. apply Forall_app. split; [exact (inv_held _ _ _ _ I)|]. constructor; [|constructor].
+             ++ constructor; [apply Named; [exact Logic.I | exact Logic.I | reflexivity]|]. apply emits_dmsgs. apply driver_wf.
+             ++ cbn [set_held b_held]. apply Forall_app. split; [exact (inv_held _ _ _ _ _ I)|]. constructor; [|constructor].
                 unfold held_ok. cbn [h_msg h_sender h_conn]. split; [apply stamp_wf; exact W|]. split; [apply stamp_sender; exact W|].
                 exists m. split; [apply Lg; reflexivity | apply stamp_same_content].
-          -- apply post_same; auto. constructor; [apply Named; [exact Logic.I | reflexivity]|]. apply emits_dmsgs. apply driver_wf.
-        * apply (post_close b v iss lg c m); auto.
+          -- apply post_same; auto. constructor; [|apply emits_dmsgs; apply driver_wf].
+             apply Named; [exact Logic.I | eapply addr_ok_routed; eauto | reflexivity].
+        * apply (post_close b v iss lg dead c m); auto.
     - (* no destination *)
       assert (D0 : str_field m F_DESTINATION = None) by (rewrite <- D; symmetry; apply str_field_scrub; unfold F_DESTINATION; lia).
       destruct (s_type (scrub m) =? 4) eqn:T4; cbn [negb].
       + destruct cname as [n|].
-        * apply post_same; auto. constructor; [apply Named; [exact Logic.I | reflexivity]|]. apply emits_dmsgs. apply driver_wf.
-        * apply (post_close b v iss lg c m); auto.
+        * apply post_same; auto. constructor; [apply Named; [exact Logic.I | exact Logic.I | reflexivity]|]. apply emits_dmsgs. apply driver_wf.
+        * apply (post_close b v iss lg dead c m); auto.
       + destruct (N.eqb_spec (s_type (scrub m)) 1) as [T1|T1].
         * apply post_same; auto. constructor; [|constructor].
           apply emit_local; [exact D0 | left; exact T1 | apply new_error_wf | apply error_no_sender
@@ -528,46 +623,83 @@ Section Steps.
   Definition event_ok (e : event) : Prop := match e with ESend _ m => wire_ok m | _ => True end.
   Definition sends_of (e : event) : Z := match e with ESend _ _ => 1%Z | _ => 0%Z end.
 
-  Lemma step_ok b e v iss last lg :
-    Inv b v iss lg -> event_ok e -> post b v iss last lg (sends_of e) (step' b e).
+  (* a connection whose only registry entries are its own leaves the registry without trace *)
+  Lemma reg_drop_in c r n q :
+    (forall n q, In (n, q) r -> exists k, q = [k]) ->
+    In (n, q) (reg_drop c r) <-> (exists k, q = [k] /\ k <> c /\ In (n, [k]) r).
+  Proof.
+    intros S. unfold reg_drop. rewrite filter_In, in_map_iff. split.
+    - intros [((n0, q0) & E & H) Ne]. cbn [fst snd] in E. injection E; intros <- <-. destruct (S _ _ H) as (k & ->).
+      cbn [filter snd] in *. destruct (N.eqb_spec k c) as [Ek|Nk]; cbn [negb] in *; [discriminate|].
+      exists k. auto.
+    - intros (k & -> & Nk & H). split; [|reflexivity]. exists (n, [k]). split; [|exact H]. cbn [fst snd filter].
+      destruct (N.eqb_spec k c); [contradiction|reflexivity].
+  Qed.
+
+  Lemma step_ok b e v iss last lg dead :
+    Inv b v iss lg dead -> event_ok e -> post b v iss last lg dead (sends_of e) (step' b e).
   Proof.
     intros I E. destruct e as [c|c m|c|name ename]; cbn [step sends_of].
     - (* connect *)
       destruct (lookup c (b_conns b)) eqn:L; [exact Logic.I|].
-      cbn [post walk view_step last_step fold_left issued flat_map app b_minor set_conns log_new wrote_from]. split; [auto|]. split; [|lia].
-      rewrite !app_nil_r. destruct I as [A B C D F G]. constructor; cbn [set_conns b_major b_minor b_conns b_reg b_held]; auto.
-      intros k. unfold upd. cbn [lookup]. rewrite (N.eqb_sym c k). destruct (k =? c); [reflexivity | apply A].
+      cbn [post walk view_step last_step fold_left issued flat_map app b_minor set_conns log_new wrote_from dead_from dead_new]. split; [auto|]. split; [|lia].
+      rewrite !app_nil_r. destruct I as [A B C D F G G1 G2 G3 G4].
+      assert (LK : forall k, lookup k ((c, None) :: b_conns b) = if k =? c then Some None else lookup k (b_conns b)).
+      { intros k. cbn [lookup]. rewrite (N.eqb_sym c k). reflexivity. }
+      constructor; cbn [set_conns b_major b_minor b_conns b_reg b_held reg_names]; auto.
+      + intros k. unfold upd. rewrite LK. destruct (k =? c); [reflexivity | apply A].
+      + intros n q H. destruct (G1 n q H) as (c0 & -> & L0). exists c0. split; [reflexivity|]. rewrite LK.
+        destruct (N.eqb_spec c0 c) as [->|_]; [congruence | exact L0].
+      + intros k n H. rewrite LK in H. destruct (k =? c); [discriminate | apply G2; exact H].
+      + intros k k' n H H'. rewrite LK in H, H'. destruct (k =? c); [discriminate|]. destruct (k' =? c); [discriminate|]. eapply G3; eauto.
+      + intros n H. destruct (G4 n H) as [X Y]. split; [exact X|]. intros k. rewrite LK. destruct (k =? c); [discriminate | apply Y].
     - (* a message *)
       destruct (lookup c (b_conns b)) as [cname|] eqn:L; [|exact Logic.I].
-      assert (Vc : v c = cst (Some cname)) by (rewrite (inv_view _ _ _ _ I), L; reflexivity).
-      assert (I' : Inv b v iss (lg ++ log_new v (TRecv c m))).
+      assert (Vc : v c = cst (Some cname)) by (rewrite (inv_view _ _ _ _ _ I), L; reflexivity).
+      assert (I' : Inv b v iss (lg ++ log_new v (TRecv c m)) dead).
       { eapply Inv_same; eauto. intros x Hx. apply in_or_app. left. exact Hx. }
       assert (Lg : forall n, cname = Some n -> In (c, n, m) (lg ++ log_new v (TRecv c m))).
       { intros n ->. apply in_or_app. right. cbn [log_new]. rewrite Vc. cbn. left. reflexivity. }
-      pose proof (dispatch_ok b c cname m v iss _ I' L E Lg) as P.
+      pose proof (dispatch_ok b c cname m v iss _ dead I' L E Lg) as P.
       destruct (dispatch' b c cname m) as [b' tr|f|]; cbn [post] in *; auto.
-      cbn [walk view_step last_step fold_left issued flat_map app]. rewrite wrote_from_cons. cbn [view_step].
+      cbn [walk view_step last_step fold_left issued flat_map app dead_from dead_new]. rewrite wrote_from_cons. cbn [view_step].
       rewrite app_assoc. tauto.
     - (* disconnect *)
       destruct (lookup c (b_conns b)) as [[n|]|] eqn:L; [| |exact Logic.I].
       + set (ds := map (emit_dmsg b) (on_disconnect b c)).
-        destruct (emits_walk v last lg ds (emits_dmsgs b v last lg _ (disc_wf b c))) as (W1 & F1 & I1 & L1).
+        destruct (emits_walk v last lg ds (emits_dmsgs b v last lg _ (disc_wf b c))) as (W1 & F1 & I1 & L1 & D1).
+        assert (Vc : v c = CNamed n) by (rewrite (inv_view _ _ _ _ _ I), L; reflexivity).
         cbn [post b_minor]. split; [|split; [|lia]].
         * apply walk_app. split; [exact W1|]. cbn [walk view_step last_step]. split; [|split; [|auto]].
           -- apply emit_driver; [apply from_driver_wf | apply from_driver_sender];
                apply new_driver_signal_wf; repeat constructor; unfold F_DESTINATION; lia.
           -- apply emit_driver; [apply new_driver_signal_wf; repeat constructor; unfold F_SENDER; lia | reflexivity].
-        * rewrite fold_left_app, issued_app, wrote_from_app, I1, L1.
-          cbn [fold_left view_step issued flat_map app noc wrote_from log_new]. rewrite !app_nil_r.
-          destruct I as [A B C D F G]. constructor; cbn [b_major b_minor b_conns b_reg b_held]; auto.
+        * rewrite fold_left_app, issued_app, wrote_from_app, dead_from_app, I1, L1, D1.
+          cbn [fold_left view_step issued flat_map app noc wrote_from log_new dead_from dead_new]. rewrite F1, Vc, !app_nil_r.
+          pose proof (live_issued _ _ _ _ _ _ _ I L) as Ln.
+          destruct I as [A B C D F G G1 G2 G3 G4].
+          assert (S1 : forall n q, In (n, q) (b_reg b) -> exists k, q = [k]) by (intros n0 q0 H; destruct (G1 _ _ H) as (k & -> & _); eauto).
+          constructor; cbn [b_major b_minor b_conns b_reg b_held reg_names]; auto.
           -- intros k. unfold upd. rewrite lookup_remove. destruct (k =? c); [reflexivity|]. rewrite F1. apply A.
-          -- intros x Hx. apply filter_In in Hx. apply F. tauto.
-      + cbn [post walk view_step last_step fold_left issued flat_map app b_minor set_conns log_new wrote_from]. split; [auto|]. split; [|lia].
-        rewrite !app_nil_r. apply Inv_remove. exact I.
+          -- intros x Hx. apply in_map_iff in Hx. destruct Hx as ((n0, q0) & <- & H). apply (reg_drop_in c _ _ _ S1) in H.
+             destruct H as (k & -> & _ & H). apply F. unfold reg_names. apply in_map_iff. exists (n0, [k]). auto.
+          -- intros n0 q0 H. apply (reg_drop_in c _ _ _ S1) in H. destruct H as (k & -> & Nk & H).
+             destruct (G1 _ _ H) as (k' & E' & Lk). injection E'; intros <-. exists k. split; [reflexivity|].
+             rewrite lookup_remove. destruct (N.eqb_spec k c); [contradiction | exact Lk].
+          -- intros k n0 H. rewrite lookup_remove in H. destruct (N.eqb_spec k c) as [|Nk]; [discriminate|].
+             apply (reg_drop_in c _ _ _ S1). exists k. split; [reflexivity|]. split; [exact Nk | apply G2; exact H].
+          -- intros k k' n0 H H'. rewrite lookup_remove in H, H'. destruct (k =? c); [discriminate|]. destruct (k' =? c); [discriminate|]. eapply G3; eauto.
+          -- intros n0 H. apply in_app_or in H. destruct H as [H|[<-|[]]].
+             ++ destruct (G4 n0 H) as [X Y]. split; [exact X|]. intros k. rewrite lookup_remove. destruct (k =? c); [discriminate | apply Y].
+             ++ split; [exact Ln|]. intros k Hk. rewrite lookup_remove in Hk. destruct (N.eqb_spec k c) as [|Nk]; [discriminate|].
+                apply Nk. eapply G3; eauto.
+      + assert (Vc : v c = CUnnamed) by (rewrite (inv_view _ _ _ _ _ I), L; reflexivity).
+        cbn [post walk view_step last_step fold_left issued flat_map app b_minor set_conns log_new wrote_from dead_from dead_new]. split; [auto|]. split; [|lia].
+        rewrite Vc, !app_nil_r. apply Inv_remove; [exact I|]. intros n0 H. congruence.
     - (* the started process failed *)
-      assert (P : post b v iss last lg 1 (Ok (set_held b (filter (fun h => negb (bytes_eqb (h_name h) name)) (b_held b))) (fail_all b name ename))).
+      assert (P : post b v iss last lg dead 1 (Ok (set_held b (filter (fun h => negb (bytes_eqb (h_name h) name)) (b_held b))) (fail_all b name ename))).
       { apply post_emits; auto; [apply fail_all_ok; auto|].
-        cbn [set_held b_held]. pose proof (inv_held _ _ _ _ I) as H. clear - H. induction H as [|h r Hh Hr IH]; cbn [filter]; [constructor|].
+        cbn [set_held b_held]. pose proof (inv_held _ _ _ _ _ I) as H. clear - H. induction H as [|h r Hh Hr IH]; cbn [filter]; [constructor|].
         destruct (negb (bytes_eqb (h_name h) name)); [constructor|]; auto. }
       cbn [post] in *. cbn [set_held b_minor] in *. intuition lia.
   Qed.
@@ -578,26 +710,27 @@ Section Steps.
   Lemma sends_nonneg h : (0 <= sends h)%Z.
   Proof. induction h as [|e r IH]; cbn [sends]; [lia|]. destruct e; cbn [sends_of]; lia. Qed.
 
-  Lemma run_ok : forall h b v iss last lg tr f b',
-    Inv b v iss lg -> Forall event_ok h -> run' b h = (tr, f, b') ->
-    walk false v last lg tr /\ Inv b' (fold_left view_step tr v) (iss ++ issued tr) (lg ++ wrote_from v tr) /\
+  Lemma run_ok : forall h b v iss last lg dead tr f b',
+    Inv b v iss lg dead -> Forall event_ok h -> run' b h = (tr, f, b') ->
+    walk false v last lg tr /\
+    Inv b' (fold_left view_step tr v) (iss ++ issued tr) (lg ++ wrote_from v tr) (dead ++ dead_from v tr) /\
     (f <> None -> (INT_MAX <= b_minor b + sends h)%Z).
   Proof.
-    induction h as [|e r IH]; intros b v iss last lg tr f b' I H R; cbn [run] in R.
-    - injection R; intros E1 E2 E3; subst tr f b'. cbn [walk fold_left issued flat_map wrote_from]. rewrite !app_nil_r.
+    induction h as [|e r IH]; intros b v iss last lg dead tr f b' I H R; cbn [run] in R.
+    - injection R; intros E1 E2 E3; subst tr f b'. cbn [walk fold_left issued flat_map wrote_from dead_from]. rewrite !app_nil_r.
       split; [exact Logic.I|]. split; [exact I|]. intros X. exfalso. apply X. reflexivity.
-    - inversion H as [|? ? He Hr]; subst. pose proof (step_ok b e v iss last lg I He) as P.
+    - inversion H as [|? ? He Hr]; subst. pose proof (step_ok b e v iss last lg dead I He) as P.
       pose proof (sends_nonneg r) as Sn.
       destruct (step' b e) as [b1 tr1|flt|].
       + destruct (run' b1 r) as [[tr2 f2] b2] eqn:R2. injection R; intros E1 E2 E3; subst tr f b'.
         cbn [post] in P. destruct P as (W1 & I1 & M1).
-        destruct (IH _ _ _ (fold_left last_step tr1 last) _ _ _ _ I1 Hr R2) as (W2 & I2 & F2).
+        destruct (IH _ _ _ (fold_left last_step tr1 last) _ _ _ _ _ I1 Hr R2) as (W2 & I2 & F2).
         split; [apply walk_app; split; assumption|]. split.
-        * rewrite fold_left_app, issued_app, wrote_from_app, !app_assoc. exact I2.
+        * rewrite fold_left_app, issued_app, wrote_from_app, dead_from_app, !app_assoc. exact I2.
         * intros Hf. specialize (F2 Hf). cbn [sends]. lia.
-      + injection R; intros E1 E2 E3; subst tr f b'. cbn [post] in P. cbn [walk fold_left issued flat_map wrote_from]. rewrite !app_nil_r.
+      + injection R; intros E1 E2 E3; subst tr f b'. cbn [post] in P. cbn [walk fold_left issued flat_map wrote_from dead_from]. rewrite !app_nil_r.
         split; [exact Logic.I|]. split; [exact I|]. intros _. cbn [sends]. lia.
-      + destruct (IH _ _ _ last _ _ _ _ I Hr R) as (W2 & I2 & F2). split; [exact W2|]. split; [exact I2|].
+      + destruct (IH _ _ _ last _ _ _ _ _ I Hr R) as (W2 & I2 & F2). split; [exact W2|]. split; [exact I2|].
         intros Hf. specialize (F2 Hf). cbn [sends]. destruct e; cbn [sends_of]; lia.
   Qed.
 
@@ -608,11 +741,11 @@ Section Steps.
   Lemma run_from_init h :
     Forall event_ok h ->
     walk false (fun _ => CAbsent) None [] (trace_of h) /\
-    Inv (snd (run' bus0 h)) (view (trace_of h)) (issued (trace_of h)) (wrote (trace_of h)) /\
+    Inv (snd (run' bus0 h)) (view (trace_of h)) (issued (trace_of h)) (wrote (trace_of h)) (departed (trace_of h)) /\
     (fault_of h <> None -> (INT_MAX <= sends h)%Z).
   Proof.
     intros H. unfold trace_of, fault_of. destruct (run' bus0 h) as [[tr f] b'] eqn:R.
-    destruct (run_ok h bus0 _ [] None [] tr f b' Inv_init H R) as (A & B & C). cbn [fst snd app] in *.
+    destruct (run_ok h bus0 _ [] None [] [] tr f b' Inv_init H R) as (A & B & C). cbn [fst snd app] in *.
     split; [exact A|]. split; [exact B|]. intros X. specialize (C X). cbn [b_minor bus0] in C. lia.
   Qed.
 
@@ -628,7 +761,7 @@ Section Steps.
   Theorem names_exact h :
     Forall event_ok h -> issued (trace_of h) = map name_k (seq 0 (length (issued (trace_of h)))).
   Proof.
-    intros H. destruct (run_from_init h H) as (_ & I & _). pose proof (inv_iss _ _ _ _ I) as E.
+    intros H. destruct (run_from_init h H) as (_ & I & _). pose proof (inv_iss _ _ _ _ _ I) as E.
     rewrite E at 2. rewrite map_length, seq_length. exact E.
   Qed.
 
@@ -664,6 +797,65 @@ Section Steps.
     destruct (send_allowed b c (stamp n m)); cbn [negb].
     - destruct (bytes_eqb (s_sig (stamp n m)) []); eexists; (split; [|reflexivity]); cbn; tauto.
     - eexists; (split; [|reflexivity]); cbn; tauto.
+  Qed.
+
+  (* ---------------- the registry side of the unique-name clause ---------------------------------- *)
+  Definition final_bus (h : list event) : bus := snd (run' bus0 h).
+
+  (* every ':' entry of the registry has exactly one owner, no queue, and that owner is the connection
+     that was given the name by Hello (TIssue is the only item that names a connection) *)
+  Theorem registry_only_hello h :
+    Forall event_ok h -> forall n q, In (n, q) (b_reg (final_bus h)) -> exists c, q = [c] /\ view (trace_of h) c = CNamed n.
+  Proof.
+    intros H n q Hq. destruct (run_from_init h H) as (_ & I & _). unfold final_bus in Hq.
+    destruct (inv_regq _ _ _ _ _ I n q Hq) as (c & -> & L). exists c. split; [reflexivity|].
+    rewrite (inv_view _ _ _ _ _ I), L. reflexivity.
+  Qed.
+
+  Theorem resolve_sound h d r :
+    Forall event_ok h -> resolve (final_bus h) d = Some r -> view (trace_of h) r = CNamed d.
+  Proof.
+    intros H R. unfold resolve in R. destruct (find (fun e => bytes_eqb d (fst e)) (b_reg (final_bus h))) as [[d' q]|] eqn:F; [|discriminate].
+    apply find_some in F. destruct F as [Fi Fe]. cbn [fst] in Fe. apply bytes_eqb_eq in Fe. subst d'.
+    destruct (registry_only_hello h H d q Fi) as (c & -> & V). injection R; intros <-. exact V.
+  Qed.
+
+  (* once the connection that held a name has gone, the name is nobody's, in every later state *)
+  Theorem departed_never_again h n :
+    Forall event_ok h -> In n (departed (trace_of h)) ->
+    In n (issued (trace_of h)) /\ (forall r, view (trace_of h) r <> CNamed n) /\ resolve (final_bus h) n = None.
+  Proof.
+    intros H Hn. destruct (run_from_init h H) as (_ & I & _). destruct (inv_dead _ _ _ _ _ I n Hn) as [X Y].
+    assert (Z : forall r, view (trace_of h) r <> CNamed n).
+    { intros r V. rewrite (inv_view _ _ _ _ _ I) in V. destruct (lookup r (b_conns (snd (run' bus0 h)))) as [[n0|]|] eqn:L; try discriminate.
+      injection V; intros ->. exact (Y r L). }
+    split; [exact X|]. split; [exact Z|].
+    destruct (resolve (final_bus h) n) as [r|] eqn:R; [|reflexivity]. exfalso. exact (Z r (resolve_sound h n r H R)).
+  Qed.
+
+  (* RequestName (any flags) and ReleaseName of a name beginning with ':' -- somebody else's, one's own, a
+     departed or a never minted one -- are refused and change nothing *)
+  Theorem colon_request_refused b c n m x :
+    lookup c (b_conns b) = Some (Some n) ->
+    str_field m F_DESTINATION = Some drv_name ->
+    send_allowed b c (stamp n m) = true ->
+    colon_request_of (stamp n m) = Some x ->
+    step' b (ESend c m) =
+    Ok b [TRecv c m;
+          TEmit (OClient c) SMonitors (if reads_args b c (stamp n m) then to_native (stamp n m) else stamp n m);
+          error_reply b c (stamp n m) err_args].
+  Proof using.
+    clear driver_wf disc_wf. intros L D A X. cbn [step]. rewrite L. unfold dispatch, peer_filter. rewrite D.
+    rewrite str_field_scrub by (unfold F_DESTINATION; lia). rewrite D.
+    replace (bytes_eqb drv_name drv_name) with true by (symmetry; apply bytes_eqb_refl).
+    fold (stamp n m). rewrite A. cbn [negb].
+    assert (Hh : is_call (stamp n m) drv_name mem_hello = false).
+    { unfold colon_request_of in X. unfold is_call in *.
+      destruct (s_type (stamp n m) =? 1); [|reflexivity]. cbn [andb] in *.
+      destruct (str_field (stamp n m) F_MEMBER) as [mb|]; [|reflexivity]. cbn [opt_is] in *.
+      destruct (bytes_eqb mb mem_hello) eqn:E; [|reflexivity]. apply bytes_eqb_eq in E. subst mb.
+      cbn in X. discriminate. }
+    rewrite Hh, X. reflexivity.
   Qed.
 
   (* a kept message is only ever dispatched for a writer that is still there under the same name,
